@@ -378,6 +378,7 @@ pub fn world_cfg(id: &str, mode: Mode) -> Cfg {
         clone_panics: 0,
         slot_consume: true,
         dtor_unwrap: false,
+        dtor_stash: false,
         allow_consume: id == "C09",
         clone_reentrant: false,
         default_ctor: 0,
